@@ -285,7 +285,9 @@ func (g *SysGen) randParams(c *ClientSpec) Params {
 	if g.chance(g.DevRate) {
 		switch g.R.Intn(9) {
 		case 0:
-			p.Redirect = pick(g.R, []string{"https://evil.example/cb", p.Redirect + "/x", "https://c1.example/CB", "https://c1.example:443/cb", "http://c1.example/cb", "https://c1.example/cb?x=1", "https://c1.example/cb2"})
+			p.Redirect = pick(g.R, []string{"https://evil.example/cb", p.Redirect + "/x", "https://c1.example/CB", "https://c1.example:443/cb", "http://c1.example/cb", "https://c1.example/cb?x=1", "https://c1.example/cb2",
+				// the URIs that mvPar pushes where unregistered URIs are permitted for PAR: a plain request must still be refused
+				"https://unregistered.example/cb", "https://other.example/x?y=1", "https://c1.example/cb%2F", "https://user@c1.example/cb"})
 		case 1:
 			p.Redirect = ""
 		case 2:
@@ -370,8 +372,17 @@ func (g *SysGen) mvAuthorize() {
 			op.Params.RespType = a.Params.RespType
 			op.Params.State = pick(g.R, []string{"", "outer-state"})
 			if g.chance(g.DevRate) {
-				op.Params.Redirect = pick(g.R, []string{"https://evil.example/cb", a.Params.Redirect})
-				op.Params.Scopes = pick(g.R, []string{"admin", "openid", a.Params.Scopes})
+				// an outer redirect_uri and an outer invalid parameter, independently: the redirect URI may
+				// be only inside the pushed request
+				if g.R.Intn(2) == 0 {
+					op.Params.Redirect = pick(g.R, []string{"https://evil.example/cb", a.Params.Redirect})
+				}
+				if g.R.Intn(3) != 0 {
+					op.Params.Scopes = pick(g.R, []string{"admin", "openid", a.Params.Scopes})
+				}
+				if g.R.Intn(4) == 0 {
+					op.Params.RespMode = pick(g.R, []string{"bogus", "query"})
+				}
 			}
 		}
 		p = a.Params
@@ -511,6 +522,20 @@ func (g *SysGen) mvRefresh() {
 			if g.chance(g.DevRate * 2) {
 				op.Scope = a.Granted + " admin"
 			}
+		case 2:
+			// a superset of the grant that stays inside the client's registration, or any
+			// registered selection: must be refused unless it is within the grant
+			if c := g.client(a.Client); c != nil {
+				if g.R.Intn(2) == 0 {
+					op.Scope = g.randScopes(c)
+				} else {
+					extra := pick(g.R, splitSp(c.Scopes))
+					if extra == "pay" {
+						extra = "pay:1"
+					}
+					op.Scope = joinSp(append(splitSp(a.Granted), extra))
+				}
+			}
 		}
 		if g.chance(g.DevRate / 2) {
 			op.Cred = Cred{ID: pick(g.R, g.clients()).ID, OK: true}
@@ -570,11 +595,15 @@ func (g *SysGen) mvQuery() {
 	if a != nil && g.R.Intn(3) != 0 {
 		c = a.Client
 	}
+	hint := ""
+	if g.R.Intn(3) == 0 {
+		hint = pick(g.R, []string{"access_token", "refresh_token", "bogus"})
+	}
 	switch x := g.R.Intn(10); {
 	case x < 4:
-		g.do(Op{Kind: "Introspect", Cred: g.cred(c), Tok: tok, Allowed: !g.chance(g.DevRate / 3)})
+		g.do(Op{Kind: "Introspect", Cred: g.cred(c), Tok: tok, Allowed: !g.chance(g.DevRate / 3), Hint: hint})
 	case x < 6:
-		g.do(Op{Kind: "Revoke", Cred: g.cred(c), Tok: tok, Allowed: !g.chance(g.DevRate / 3)})
+		g.do(Op{Kind: "Revoke", Cred: g.cred(c), Tok: tok, Allowed: !g.chance(g.DevRate / 3), Hint: hint})
 	case x < 8:
 		g.do(Op{Kind: "UserInfo", Tok: tok, HasHeader: !g.chance(g.DevRate / 3)})
 	case x < 9:
@@ -589,7 +618,9 @@ func (g *SysGen) mvQuery() {
 func (g *SysGen) mvTick() {
 	cands := []int{7, 25, 55, 65, 105, g.optZ("WithTokenLifetime", 300) + 5, g.optZ("WithTokenLifetime", 300) - 5,
 		g.optZ("WithRefreshTokenGrant", 600) + 5, g.optZ("WithAuthenticationSessionTimeout", 1800) + 5,
-		g.optZ("WithPAR", 60) + 3, g.optZ("WithCIBALifetime", 60) + 3, g.optZ("WithCIBALifetime", 60) - 4}
+		g.optZ("WithPAR", 60) + 3, g.optZ("WithCIBALifetime", 60) + 3, g.optZ("WithCIBALifetime", 60) - 4,
+		// into the last token lifetime before the absolute expiry of a grant, then just past it
+		g.optZ("WithRefreshTokenGrant", 600) - 8, g.optZ("WithRefreshTokenGrant", 600) - g.optZ("WithTokenLifetime", 300)/2, 12}
 	d := pick(g.R, cands)
 	if d <= 0 {
 		d = 5
